@@ -35,8 +35,9 @@ def run(tier):
     R.add_registry(reg)
     jobs = [dict(fn="props.events:job_no_miss", label="%s/handle_events-no-miss[n=%d]" % (PID, n), kwargs=dict(prop=PID, n=n)) for n in (1, 2)]
     jobs += [dict(fn="props.events:job_handle_events", label="%s/handle_events[n=%d]" % (PID, n), kwargs=dict(prop=PID, n=n)) for n in (1, 2)]
-    for n, terms, d in EC.configs(tier, "nonterminal"):
-        jobs.extend(IE.event_jobs(PID, n, terms, d))
+    cfgs = EC.configs(tier, "nonterminal")
+    for n, terms, d, dense in cfgs:
+        jobs.extend(IE.event_jobs(PID, n, terms, d, dense))
     jobs.append(dict(fn="props.integrate_events:job_remove", label=PID + "/DenseOutput", kwargs=dict(prop=PID)))
     EC.obligations_of(reg, R, jobs)
     for name in ("handle_events", "prepare_events", "OdeSystem.integrate", "DenseOutput.add_interpolant", "DenseOutput.remove_interpolant", "DenseOutput.__len__"):
